@@ -51,17 +51,17 @@ def get_objective(n):
 @st.composite
 def solve_cases(draw):
     n = [2, 3, 5, 8][draw(st.integers(0, 3))]
-    G = onp.array(draw(st.lists(st.floats(-1, 1), min_size=n * n, max_size=n * n))).reshape(n, n)
+    G = onp.array(draw(st.lists(gen.floats(-1, 1), min_size=n * n, max_size=n * n))).reshape(n, n)
     Q, _ = onp.linalg.qr(G + 3 * onp.eye(n))
-    lam = 10.0 ** (-draw(st.floats(0, 3)) * onp.array(sorted(draw(st.lists(st.floats(0, 1), min_size=n, max_size=n)))))
+    lam = 10.0 ** (-draw(gen.floats(0, 3)) * onp.array(sorted(draw(st.lists(gen.floats(0, 1), min_size=n, max_size=n)))))
     A = (Q * lam) @ Q.T
     A = 0.5 * (A + A.T)
     steps = []
     for _ in range(draw(st.integers(1, 3))):
-        steps.append({'p0': draw(st.lists(st.floats(-1, 1), min_size=n, max_size=n)), 'p1': draw(st.lists(st.floats(-1, 1), min_size=n, max_size=n)),
-                      'theta': draw(st.lists(st.floats(-1, 1), min_size=n, max_size=n)), 'q': draw(st.floats(0.01, 1.0)), 'p4': draw(st.floats(-1, 1))})
+        steps.append({'p0': draw(st.lists(gen.floats(-1, 1), min_size=n, max_size=n)), 'p1': draw(st.lists(gen.floats(-1, 1), min_size=n, max_size=n)),
+                      'theta': draw(st.lists(gen.floats(-1, 1), min_size=n, max_size=n)), 'q': draw(gen.floats(0.01, 1.0)), 'p4': draw(gen.floats(-1, 1))})
     vk = draw(st.integers(0, 2))
-    v = draw(st.lists(st.floats(-1, 1), min_size=n, max_size=n))
+    v = draw(st.lists(gen.floats(-1, 1), min_size=n, max_size=n))
     return {'n': n, 'A': A.tolist(), 'steps': steps, 'vkind': vk, 'v': v, 'api': ['with_state', 'design', 'with_state'][draw(st.integers(0, 2))]}
 
 
@@ -176,7 +176,7 @@ def helper_cases(draw, name):
     # compiling the helper set for one (model, constants, order, mesh) costs ~50 s: the quick tier uses two meshes per model
     return {'model': name, 'preset': draw(st.integers(0, 1)) if _T else 0, 'order': [1, 1, 2][draw(st.integers(0, 2))] if _T else 1,
             'meshid': draw(st.integers(0, 2 if _T else (0 if name == 'visco1' else 1))),
-            'ucoef': draw(st.lists(st.floats(-1, 1), min_size=12, max_size=12)), 'amp': draw(gen.logfloat(-3, -1)), 'dtrel': draw(gen.logfloat(-1, 1)),
+            'ucoef': draw(st.lists(gen.floats(-1, 1), min_size=12, max_size=12)), 'amp': draw(gen.logfloat(-3, -1)), 'dtrel': draw(gen.logfloat(-1, 1)),
             'seed': draw(st.integers(0, 10 ** 6)), 'evolve': draw(st.booleans())}
 
 
@@ -293,7 +293,7 @@ def afs_cases(draw):
     order = draw(st.integers(1, 3))
     mesh = draw(gen.lattice_mesh(nx=(1, 2), ny=(1, 2)))
     return {'order': order, 'mesh': mesh, 'mode': ['cartesian', 'axisymmetric'][draw(st.integers(0, 1))], 'qdeg': draw(st.integers(1, 6)),
-            'pert': draw(st.lists(st.floats(-1, 1), min_size=12, max_size=12)), 'amp': draw(gen.logfloat(-6, -1))}
+            'pert': draw(st.lists(gen.floats(-1, 1), min_size=12, max_size=12)), 'amp': draw(gen.logfloat(-6, -1))}
 
 
 def check_afs(case):
